@@ -353,7 +353,7 @@ func (c *clipperBase) fixSelfIntersects(outrec *OutRec) {
 	for {
 		c.vs.tick("fixSelfIntersects")
 		if segsIntersect(op2.prev.pt, op2.pt, op2.next.pt, op2.next.next.pt, false) {
-			if segsIntersect(op2.prev.pt, op2.pt, op2.next.next.next.pt, op2.next.next.next.next.pt, false) {
+			if segsIntersect(op2.prev.pt, op2.pt, op2.next.next.pt, op2.next.next.next.pt, false) {
 				c.vs.opEvent("selfint_micro", op2, 0, 0)
 				op2 = duplicateOp(op2, false)
 				op2.pt = op2.next.next.next.pt
